@@ -5,6 +5,7 @@ import StamModel.Driver.Find
 import StamModel.Driver.Txt
 import StamModel.Driver.St
 import StamModel.Driver.Tv
+import StamModel.Driver.Tp
 /-
   Line-protocol driver: one request per line on stdin, one answer per line on stdout.
   Built as the `stamdriver` executable (core Lean only).
@@ -21,6 +22,7 @@ def step (line : String) : String :=
   | "txt" :: args => txt args
   | "dv" :: args => dv args
   | "tv" :: args => tv args
+  | "tp" :: args => tp args
   | ["reset"] => "ok"
   | _ => "bad-op"
 
